@@ -460,7 +460,22 @@ func init() {
 }
 
 func genC05(r *rng, n int, tier string, emit func(string, ...string)) {
-	genUnmarshalCases(r, n, emit, genRopts)
+	genUnmarshalCases(r, n-n/5, emit, genRopts)
+	// "the same holds for building a record from arbitrary content and headers": builder cases with small spill thresholds
+	// and every feeding manner, including running totals that land exactly on the threshold
+	for i := 0; i < n/5; i++ {
+		sub := r.fork()
+		c := genBuildCase(sub)
+		o := genRopts(sub)
+		if sub.chance(1, 2) {
+			o.maxMem = pick(sub, []int{1, 2, 7, 16, 33, 64})
+		}
+		if sub.chance(1, 4) {
+			c.content = sub.bytes(sub.rangeInt(0, 400))
+		}
+		stat("build-class", c.class)
+		emit("build", o.String(), c.ver, strconv.Itoa(c.rt0), pairsArg(c.hdr), hx(c.content), hxs(fixedId), oraclesForBuild(c), pick(sub, []string{"w", "ws", "rf-one", "rf-eofwith", "mix", "exact", "exact"}))
+	}
 }
 
 func init() {
